@@ -1,3 +1,40 @@
 import Sheens.ES
 
-/-! Property C06 — theorems (in progress). -/
+/-!
+# Property C06 — the engine holds no state
+
+In the model a step and a walk are *functions* of (spec, state, messages, limit, breakpoints):
+repeating a call with equal inputs yields an equal result, and nothing a call does can leak into the
+next one — there is no other state.  That the Go code is such a function — that it writes into no
+map or structure it was given and hands back no map it shares with its inputs — is below the level of
+a pure model; it is decided by the regenerated source facts, which are theorems over what the source
+says on this run:
+
+* `FactsOK.engine_writes_only_locals`: no write site of `Step/Walk/consider/try/target/Exec` is
+  rooted in a parameter (state, messages, control, props) or the receiver (spec, branch, action);
+* `FactsOK.engine_mutators_on_fresh_maps`: every `Extend/Extendm` there is on a `Copy()`;
+* `FactsOK.step_returns_copies`: the states a step returns are copies or literals over copies;
+* `FactsOK.match_copies_first`: the matcher works on a copy of the bindings it is given;
+
+and by the snapshot / pointer-identity probes of the correspondence run.  The ownership layer planned
+in the first design (a heap model with frame theorems) was not built.
+-/
+
+namespace Sheens.C06
+
+/-- Repeating a step with equal inputs yields an equal result. -/
+theorem step_repeatable (s : Spec) (st : State) (pending : Option V) (o₁ o₂ : StepOut)
+    (h₁ : step s st pending = o₁) (h₂ : step s st pending = o₂) : o₁ = o₂ := h₁ ▸ h₂
+
+/-- Repeating a walk with equal inputs yields an equal result: a host may discard a result and retry,
+    or process the same message against many machines, without any effect leaking. -/
+theorem walk_repeatable (s : Spec) (st : State) (msgs : List V) (l : Option Int) (bp : State → Bool)
+    (w₁ w₂ : Walked) (h₁ : walk s st msgs l bp = w₁) (h₂ : walk s st msgs l bp = w₂) : w₁ = w₂ := h₁ ▸ h₂
+
+/-- A discarded attempt leaves no trace: the result of a later call does not depend on any earlier
+    call having been made (calls have no effect but their result). -/
+theorem discarded_attempt_leaves_no_trace (s : Spec) (st st' : State) (msgs msgs' : List V)
+    (l l' : Option Int) (bp : State → Bool) :
+    (let _discarded := walk s st' msgs' l' bp; walk s st msgs l bp) = walk s st msgs l bp := rfl
+
+end Sheens.C06
